@@ -1,8 +1,412 @@
-(* Collect engine — lemmas about the model in Collect/TopN.v. *)
-From Coq Require Import ZArith List Bool Lia.
-From Verif Require Import Common.Bytes Collect.TopN.
+(* Collect engine — the collector of Collect/TopN.v returns the requested slice of the sorted
+   match list: both stores implement "keep the K best, hand back the worst", the
+   lowest-match-outside-results shortcut never drops a top-K match, Final drops the first skip. *)
+From Coq Require Import ZArith List Bool Lia Permutation PeanoNat.
+From Verif Require Import Common.Bytes Collect.TopN Collect.TopNOrder Collect.TopNSorted Collect.TopNHeap.
 Import ListNotations.
 Local Open Scope Z_scope.
 
-Lemma spec_total_length ms : spec_total ms = Z.of_nat (length ms).
-Proof. reflexivity. Qed.
+Section Collector.
+  Variable cmp : dmatch -> dmatch -> Z.
+  Hypothesis cmp_anti : forall a b, cmp b a = - cmp a b.
+  Hypothesis cmp_le_trans : forall a b c, cmp a b <= 0 -> cmp b c <= 0 -> cmp a c <= 0.
+  Hypothesis cmp_eq_hit : forall a b, cmp a b = 0 -> hit a = hit b.
+
+  Local Notation lt := (TopNSorted.lt cmp).
+  Local Notation ssorted := (TopNSorted.ssorted cmp).
+  Local Notation sort := (sort_by cmp).
+  Local Notation ins := (insert_by cmp).
+
+  Local Hint Resolve cmp_anti cmp_le_trans cmp_eq_hit : core.
+  Set Default Proof Using "All".
+  (* lemmas of TopNSorted / TopNHeap, applied to this section's comparison *)
+  Local Notation Ap l := (l cmp cmp_anti cmp_le_trans cmp_eq_hit) (only parsing).
+
+  Lemma lt_of_nle a b : cmp a b <> 0 -> ~ (0 <= cmp a b) -> lt a b.
+  Proof. unfold TopNSorted.lt. lia. Qed.
+
+  Lemma lt_flip a b : cmp a b <> 0 -> 0 <= cmp a b -> lt b a.
+  Proof. unfold TopNSorted.lt. rewrite (cmp_anti a b). lia. Qed.
+
+  (* ---------------------------------------------------------------- the slice store *)
+
+  Lemma ins_back_perm d r : Permutation (ins_back cmp d r) (d :: r).
+  Proof.
+    induction r as [|e r IH]; cbn; [reflexivity|].
+    destruct (0 <=? cmp d e); [reflexivity|]. rewrite IH. apply perm_swap.
+  Qed.
+
+  Lemma ins_back_sorted d r :
+    ssorted (rev r) -> uhits (d :: r) -> ssorted (rev (ins_back cmp d r)).
+  Proof.
+    induction r as [|e r IH]; intros S U; [cbn; auto|].
+    cbn [rev] in S. apply (Ap ssorted_app) in S. destruct S as (S1 & _ & C).
+    cbn [ins_back]. destruct (0 <=? cmp d e) eqn:E.
+    - apply Z.leb_le in E.
+      assert (Hed : lt e d) by (apply lt_flip; [eapply (Ap uhits_neq); eauto; left; reflexivity|exact E]).
+      change (rev (d :: e :: r)) with (rev (e :: r) ++ [d]).
+      apply (Ap ssorted_app). repeat split.
+      + cbn [rev]. apply (Ap ssorted_app). repeat split; cbn; auto.
+      + cbn; auto.
+      + intros a b Ha [<-|[]]. cbn [rev] in Ha. apply in_app_or in Ha. destruct Ha as [Ha|[<-|[]]]; [|exact Hed].
+        eapply (Ap lt_trans); eauto. apply C; [exact Ha|left; reflexivity].
+    - apply Z.leb_gt in E.
+      assert (Hde : lt d e) by (unfold TopNSorted.lt; lia).
+      cbn [rev]. apply (Ap ssorted_app). repeat split.
+      + apply IH; [exact S1|]. eapply (Ap uhits_perm) in U; [|apply perm_swap]. eapply (Ap uhits_cons_inv); exact U.
+      + cbn; auto.
+      + intros a b Ha [<-|[]]. apply in_rev in Ha. apply (Permutation_in _ (ins_back_perm d r)) in Ha.
+        destruct Ha as [<-|Ha]; [exact Hde|]. apply C; [apply -> in_rev; exact Ha|left; reflexivity].
+  Qed.
+
+  Lemma slice_add_perm d s : Permutation (slice_add cmp d s) (d :: s).
+  Proof.
+    unfold slice_add. rewrite <- Permutation_rev, ins_back_perm. constructor. apply Permutation_sym, Permutation_rev.
+  Qed.
+
+  Lemma slice_add_sorted d s : ssorted s -> uhits (d :: s) -> ssorted (slice_add cmp d s).
+  Proof.
+    intros S U. unfold slice_add. apply ins_back_sorted.
+    - rewrite rev_involutive. exact S.
+    - eapply (Ap uhits_perm); [|exact U]. constructor. apply Permutation_rev.
+  Qed.
+
+  Lemma slice_final_skipn skip (s : list dmatch) : slice_final skip s = skipn skip s.
+  Proof.
+    unfold slice_final. destruct (skip <=? length s)%nat eqn:E; [reflexivity|].
+    apply Nat.leb_gt in E. symmetry. apply skipn_all2. lia.
+  Qed.
+
+  (* ---------------------------------------------------------------- both stores: AddNotExceedingSize *)
+
+  Definition store_inv (heap : bool) (s : list dmatch) : Prop :=
+    if heap then heap_ok cmp s else ssorted s.
+
+  Lemma last_split (l : list dmatch) :
+    l <> [] -> l = removelast l ++ [last l d0] /\ nth_error l (length l - 1) = Some (last l d0) /\
+               length (removelast l) = (length l - 1)%nat.
+  Proof.
+    intros H. pose proof (app_removelast_last d0 H) as E.
+    assert (L : length (removelast l) = (length l - 1)%nat).
+    { rewrite E at 2. rewrite app_length. cbn. lia. }
+    repeat split; auto.
+    rewrite E at 1. rewrite nth_error_app2 by lia. rewrite L, Nat.sub_diag. reflexivity.
+  Qed.
+
+  Lemma add_spec heap d K s :
+    store_inv heap s -> uhits (d :: s) -> (length s <= K)%nat ->
+    exists s' r, add_not_exceeding heap cmp d K s = Some (s', r) /\ store_inv heap s' /\
+      (((length s < K)%nat /\ r = None /\ Permutation s' (d :: s)) \/
+       (length s = K /\ exists x, r = Some x /\ Permutation (x :: s') (d :: s) /\
+                                  forall y, In y s' -> lt y x)).
+  Proof.
+    intros I U L. unfold add_not_exceeding. destruct heap; cbn [store_inv] in *.
+    - (* heap *)
+      unfold heap_add_not_exceeding.
+      destruct ((Ap heap_push_correct) d s I) as (h' & E & Hok & P).
+      rewrite E. pose proof (Permutation_length P) as Hlen. cbn in Hlen.
+      destruct (K <? length h')%nat eqn:EK.
+      + apply Nat.ltb_lt in EK.
+        destruct ((Ap heap_pop_correct) h' Hok) as (x & h'' & E2 & Hok2 & P2 & Hmax).
+        { intros ->. cbn in Hlen. lia. }
+        rewrite E2. exists h'', (Some x). repeat split; auto.
+        right. split; [lia|]. exists x. repeat split; auto.
+        * rewrite P2. exact P.
+        * intros y Hy. specialize (Hmax y Hy). unfold le in Hmax.
+          assert (U2 : uhits (x :: h'')) by (eapply (Ap uhits_perm); [apply Permutation_sym; rewrite P2; exact P|exact U]).
+          pose proof ((Ap uhits_neq) x h'' y U2 Hy) as N.
+          unfold TopNSorted.lt. rewrite (cmp_anti y x) in N. lia.
+      + apply Nat.ltb_ge in EK. exists h', None. repeat split; auto.
+        left. repeat split; auto. lia.
+    - (* slice *)
+      unfold slice_add_not_exceeding.
+      pose proof (slice_add_perm d s) as P. pose proof (slice_add_sorted d s I U) as S.
+      pose proof (Permutation_length P) as Hlen. cbn in Hlen.
+      set (s' := slice_add cmp d s) in *.
+      destruct (K <? length s')%nat eqn:EK.
+      + apply Nat.ltb_lt in EK.
+        destruct (last_split s') as (E & N & Lr). { intros Z0. rewrite Z0 in Hlen. cbn in Hlen. lia. }
+        rewrite N. exists (removelast s'), (Some (last s' d0)).
+        rewrite E in S. apply (Ap ssorted_app) in S. destruct S as (S1 & _ & C).
+        repeat split; auto.
+        right. split; [lia|]. exists (last s' d0). repeat split; auto.
+        * rewrite <- P. transitivity (removelast s' ++ [last s' d0]); [apply Permutation_cons_append|].
+          rewrite <- E. reflexivity.
+        * intros y Hy. apply C; [exact Hy|left; reflexivity].
+      + apply Nat.ltb_ge in EK. exists s', None. repeat split; auto.
+        left. repeat split; auto. lia.
+  Qed.
+
+  (* ---------------------------------------------------------------- both stores: Final *)
+
+  Lemma pop_n_correct n : forall h acc,
+    heap_ok cmp h -> uhits h -> (n <= length h)%nat ->
+    pop_n cmp n h acc = Some (skipn (length h - n) (sort h) ++ acc).
+  Proof.
+    induction n as [|n IH]; intros h acc Hok U Hn.
+    - cbn. rewrite Nat.sub_0_r. rewrite skipn_all2 by (rewrite (Ap sort_length); lia). reflexivity.
+    - cbn [pop_n].
+      destruct ((Ap heap_pop_correct) h Hok) as (x & h' & E & Hok' & P & Hmax).
+      { intros ->. cbn in Hn. lia. }
+      rewrite E. pose proof (Permutation_length P) as Hlen. cbn in Hlen.
+      assert (U' : uhits (x :: h')) by (eapply (Ap uhits_perm); [apply Permutation_sym; exact P|exact U]).
+      rewrite IH; [|exact Hok'|eapply (Ap uhits_cons_inv); exact U'|lia].
+      (* sort h = sort h' ++ [x] *)
+      assert (Es : sort h = sort h' ++ [x]).
+      { symmetry. apply (Ap sort_unique); auto.
+        - apply (Ap ssorted_app). repeat split.
+          + apply (Ap sort_sorted); auto. eapply (Ap uhits_cons_inv); exact U'.
+          + cbn; auto.
+          + intros a b Ha [<-|[]]. apply (Permutation_in _ ((Ap sort_perm) h')) in Ha.
+            specialize (Hmax a Ha). unfold le in Hmax.
+            pose proof ((Ap uhits_neq) x h' a U' Ha) as N.
+            unfold TopNSorted.lt. rewrite (cmp_anti a x) in N. lia.
+        - rewrite <- P. rewrite ((Ap sort_perm) h'). apply Permutation_sym, Permutation_cons_append. }
+      rewrite Es. f_equal.
+      rewrite skipn_app. rewrite (Ap sort_length).
+      replace (length h - S n - length h')%nat with 0%nat by lia.
+      replace (length h - S n)%nat with (length h' - n)%nat by lia.
+      cbn [skipn]. rewrite <- app_assoc. reflexivity.
+  Qed.
+
+  Lemma final_spec heap skip s :
+    store_inv heap s -> uhits s ->
+    (if heap then heap_final cmp skip s else Some (slice_final skip s)) = Some (skipn skip (sort s)).
+  Proof.
+    intros I U. destruct heap; cbn [store_inv] in I.
+    - unfold heap_final. rewrite pop_n_correct by (auto; lia). rewrite app_nil_r. f_equal.
+      destruct (Nat.le_gt_cases skip (length s)) as [H|H].
+      + f_equal. lia.
+      + rewrite !skipn_all2; [reflexivity| |]; rewrite (Ap sort_length); lia.
+    - rewrite slice_final_skipn. rewrite (Ap sort_sorted_id); auto.
+  Qed.
+
+  (* ---------------------------------------------------------------- the handler invariant *)
+
+  (* after the matches [p] went through the handler: the store holds exactly the K best of them
+     and lowestMatchOutsideResults is the best of the rest *)
+  Definition cinv (heap : bool) (K : nat) (p : list dmatch) (st : cstate) : Prop :=
+    store_inv heap (st_store st) /\
+    Permutation (st_store st) (firstn K (sort p)) /\
+    st_lowest st = nth_error (sort p) K.
+
+  Lemma nth_error_in_skipn (l : list dmatch) K x : nth_error l K = Some x -> In x (skipn K l).
+  Proof.
+    revert K; induction l as [|y l IH]; intros [|K] H; cbn in *; try discriminate.
+    - injection H as ->. left; reflexivity.
+    - apply IH; exact H.
+  Qed.
+
+  Lemma handle_step heap K p st d :
+    cinv heap K p st -> uhits (p ++ [d]) ->
+    exists st', handle cmp heap K None st d = Some st' /\ cinv heap K (p ++ [d]) st' /\
+                st_total st' = st_total st /\ st_max st' = st_max st.
+  Proof.
+    intros (I & P & Low) U.
+    set (L := sort p) in *.
+    assert (Up : uhits p) by (eapply (Ap uhits_app_l); exact U).
+    assert (SL : ssorted L) by (apply (Ap sort_sorted); auto).
+    assert (UL : uhits (d :: L)).
+    { apply (Ap uhits_app_comm) in U. cbn in U. eapply (Ap uhits_perm); [|exact U]. constructor.
+      apply Permutation_sym, (Ap sort_perm). }
+    unfold cinv. rewrite (Ap sort_by_snoc). fold L.
+    unfold handle. cbv iota beta.
+    (* does the shortcut fire? *)
+    assert (Hcase :
+      (exists l, st_lowest st = Some l /\ nth_error L K = Some l /\ 0 <= cmp d l) \/
+      ((match st_lowest st with Some l => 0 <=? cmp d l | None => false end) = false /\
+       ((length L <= K)%nat \/ exists x, nth_error L K = Some x /\ lt d x))).
+    { destruct (st_lowest st) as [l|] eqn:El.
+      - destruct (0 <=? cmp d l) eqn:E; [left; exists l; repeat split; auto; apply Z.leb_le; exact E|].
+        right. split; [reflexivity|]. right. exists l. split; [auto|].
+        apply Z.leb_gt in E. unfold TopNSorted.lt. lia.
+      - right. split; [reflexivity|]. left. apply nth_error_None. auto. }
+    destruct Hcase as [(l & El & Nl & Hge)|(Eshort & Hbefore)].
+    - (* shortcut: d sorts after the (K+1)-th best, nothing changes *)
+      rewrite El. replace (0 <=? cmp d l) with true by (symmetry; apply Z.leb_le; exact Hge).
+      assert (Hld : lt l d).
+      { apply lt_flip; [|exact Hge]. eapply (Ap uhits_neq); eauto. eapply nth_error_In; exact Nl. }
+      destruct ((Ap insert_after_K) L K d l SL Nl Hld) as (H1 & H2).
+      exists st. split; [reflexivity|]. split; [|split; reflexivity].
+      split; [exact I|]. split.
+      + rewrite H1. exact P.
+      + rewrite H2. exact El.
+    - rewrite Eshort.
+      rewrite ((Ap insert_before_K) L K d SL Hbefore).
+      set (F := firstn K L) in *. set (R := skipn K L) in *.
+      assert (ELFR : L = F ++ R) by (symmetry; apply firstn_skipn).
+      assert (UF : uhits (d :: F)).
+      { rewrite ELFR in UL. change (d :: F ++ R) with ((d :: F) ++ R) in UL. eapply (Ap uhits_app_l); exact UL. }
+      assert (Us : uhits (d :: st_store st)).
+      { eapply (Ap uhits_perm); [|exact UF]. constructor. apply Permutation_sym; exact P. }
+      assert (Hls : length (st_store st) = length F) by (apply Permutation_length; exact P).
+      assert (HlF : (length F <= K)%nat) by (unfold F; rewrite firstn_length; lia).
+      destruct (add_spec heap d K (st_store st) I Us) as (s' & r & Eadd & I' & Hr); [lia|].
+      rewrite Eadd.
+      set (M := ins d F).
+      assert (PM : Permutation M (d :: F)) by apply (Ap insert_perm).
+      assert (SM : ssorted M) by (apply (Ap insert_sorted); auto; apply (Ap ssorted_firstn); auto).
+      destruct Hr as [(Hlt & -> & Ps')|(Heq & x & -> & Ps' & Hmax)].
+      + (* room left: nothing evicted *)
+        eexists. split; [reflexivity|]. cbn. repeat split; auto.
+        * assert (HLK : (length L < K)%nat).
+          { unfold F in Hls. rewrite firstn_length in Hls. lia. }
+          assert (ER : R = []) by (apply skipn_all2; lia).
+          rewrite ER, app_nil_r. rewrite firstn_all2.
+          -- rewrite Ps', PM. constructor. exact P.
+          -- rewrite (Permutation_length PM). cbn. lia.
+        * assert (HLK : (length L < K)%nat).
+          { unfold F in Hls. rewrite firstn_length in Hls. lia. }
+          rewrite Low. transitivity (@None dmatch); [apply nth_error_None; lia|].
+          symmetry. apply nth_error_None.
+          rewrite app_length, (Permutation_length PM). cbn.
+          assert (length R = 0)%nat by (unfold R; rewrite skipn_length; lia). lia.
+      + (* the worst of store+d is evicted and becomes the new lowest *)
+        assert (Hls' : length s' = K).
+        { pose proof (Permutation_length Ps') as H. cbn in H. lia. }
+        assert (Us' : uhits (x :: s')) by (eapply (Ap uhits_perm); [apply Permutation_sym; exact Ps'|exact Us]).
+        assert (EM : sort s' ++ [x] = M).
+        { apply (Ap ssorted_perm_eq); auto.
+          - apply (Ap ssorted_app). repeat split.
+            + apply (Ap sort_sorted); auto. eapply (Ap uhits_cons_inv); exact Us'.
+            + cbn; auto.
+            + intros a b Ha [<-|[]]. apply Hmax. apply (Permutation_in _ ((Ap sort_perm) s')). exact Ha.
+          - rewrite PM. rewrite ((Ap sort_perm) s'). rewrite <- Permutation_cons_append. rewrite Ps'.
+            constructor. exact P. }
+        assert (HlS : length (sort s') = K) by (rewrite (Ap sort_length); exact Hls').
+        assert (Hfirst : firstn K (M ++ R) = sort s').
+        { rewrite <- EM. rewrite <- app_assoc. rewrite firstn_app, HlS, Nat.sub_diag. cbn [firstn].
+          rewrite app_nil_r. apply firstn_all2. lia. }
+        assert (Hnth : nth_error (M ++ R) K = Some x).
+        { rewrite <- EM. rewrite <- app_assoc. rewrite nth_error_app2 by lia. rewrite HlS, Nat.sub_diag. reflexivity. }
+        eexists. split; [reflexivity|]. cbn. repeat split; auto.
+        * rewrite Hfirst. apply Permutation_sym, (Ap sort_perm).
+        * rewrite Hnth. destruct (st_lowest st) as [l|] eqn:El; [|reflexivity].
+          assert (Nl : nth_error L K = Some l) by (rewrite <- Low; reflexivity).
+          assert (Hxl : lt x l).
+          { assert (Hx : In x M) by (rewrite <- EM; apply in_or_app; right; left; reflexivity).
+            apply (Permutation_in _ PM) in Hx. destruct Hx as [<-|Hx].
+            - destruct Hbefore as [Hb|(y & Ny & Hy)]; [apply nth_error_None in Hb; congruence|].
+              congruence.
+            - eapply (Ap ssorted_firstn_lt_skipn); eauto. apply nth_error_in_skipn. exact Nl. }
+          unfold TopNSorted.lt in Hxl. replace (cmp x l <? 0) with true by (symmetry; apply Z.ltb_lt; exact Hxl).
+          reflexivity.
+  Qed.
+
+  (* ---------------------------------------------------------------- the Collect loop *)
+
+  (* the search-after filter of the handler *)
+  Definition passes (sa : option after_doc) (d : dmatch) : bool :=
+    match sa with
+    | Some a => negb (cmp d {| hit := hit d; did := []; score := sa_score a; keys := sa_keys a |} <=? 0)
+    | None => true
+    end.
+
+  Lemma handle_filtered heap K sa st d :
+    passes sa d = false -> handle cmp heap K sa st d = Some st.
+  Proof.
+    unfold passes, handle. destruct sa as [a|]; [|discriminate]. intros H.
+    apply negb_false_iff in H. rewrite H. reflexivity.
+  Qed.
+
+  Lemma handle_passed heap K sa st d :
+    passes sa d = true -> handle cmp heap K sa st d = handle cmp heap K None st d.
+  Proof.
+    unfold passes, handle. destruct sa as [a|]; [|reflexivity]. intros H.
+    apply negb_true_iff in H. rewrite H. reflexivity.
+  Qed.
+
+  Lemma number_from_app n l1 l2 :
+    number_from n (l1 ++ l2) = number_from n l1 ++ number_from (n + Z.of_nat (length l1)) l2.
+  Proof.
+    revert n; induction l1 as [|m l1 IH]; intros n; cbn [number_from app length].
+    - rewrite Z.add_0_r. reflexivity.
+    - rewrite IH. f_equal. f_equal. f_equal. lia.
+  Qed.
+
+  Lemma number_from_hits n l : map hit (number_from n l) = map (fun i => n + 1 + Z.of_nat i) (seq 0 (length l)).
+  Proof.
+    revert n; induction l as [|m l IH]; intros n; [reflexivity|].
+    cbn [number_from map length seq]. f_equal; [lia|].
+    rewrite IH. rewrite <- seq_shift, map_map. apply map_ext. intros i. lia.
+  Qed.
+
+  Lemma uhits_numbered n l : uhits (number_from n l).
+  Proof.
+    unfold uhits. rewrite number_from_hits.
+    apply FinFun.Injective_map_NoDup; [|apply seq_NoDup]. intros a b H. lia.
+  Qed.
+
+  Lemma spec_max_snoc l m : spec_max_score (l ++ [m]) = Z.max (spec_max_score l) (rscore m).
+  Proof. unfold spec_max_score. rewrite fold_left_app. reflexivity. Qed.
+
+  Lemma collect_loop_inv heap K sa : forall ms pre st,
+    cinv heap K (filter (passes sa) (numbered pre)) st ->
+    st_total st = Z.of_nat (length pre) -> st_max st = spec_max_score pre ->
+    exists st', collect_loop cmp heap K sa st ms = Some st' /\
+                cinv heap K (filter (passes sa) (numbered (pre ++ ms))) st' /\
+                st_total st' = Z.of_nat (length (pre ++ ms)) /\
+                st_max st' = spec_max_score (pre ++ ms).
+  Proof.
+    induction ms as [|m ms IH]; intros pre st Hinv Ht Hm.
+    - exists st. rewrite app_nil_r. auto.
+    - cbn [collect_loop]. unfold collect_step.
+      set (d := {| hit := st_total st + 1; did := rid m; score := rscore m; keys := rkeys m |}).
+      set (st1 := {| st_store := st_store st; st_lowest := st_lowest st; st_total := st_total st + 1;
+                     st_max := if st_max st <? rscore m then rscore m else st_max st |}).
+      assert (Hnum : numbered (pre ++ [m]) = numbered pre ++ [d]).
+      { unfold numbered. rewrite number_from_app. cbn [number_from]. rewrite Z.add_0_l, <- Ht. reflexivity. }
+      assert (Hinv1 : cinv heap K (filter (passes sa) (numbered pre)) st1) by exact Hinv.
+      assert (Hstep : exists st2, handle cmp heap K sa st1 d = Some st2 /\
+                cinv heap K (filter (passes sa) (numbered (pre ++ [m]))) st2 /\
+                st_total st2 = st_total st1 /\ st_max st2 = st_max st1).
+      { rewrite Hnum, filter_app. cbn [filter].
+        destruct (passes sa d) eqn:Ep.
+        - rewrite handle_passed by exact Ep. apply handle_step; [exact Hinv1|].
+          pose proof ((Ap uhits_filter) (passes sa) _ (uhits_numbered 0 (pre ++ [m]))) as U.
+          fold (numbered (pre ++ [m])) in U. rewrite Hnum, filter_app in U. cbn [filter] in U.
+          rewrite Ep in U. exact U.
+        - rewrite handle_filtered by exact Ep. exists st1. rewrite app_nil_r. auto. }
+      destruct Hstep as (st2 & E2 & Hinv2 & Ht2 & Hm2).
+      rewrite E2.
+      destruct (IH (pre ++ [m]) st2 Hinv2) as (st' & E' & Hinv' & Ht' & Hm').
+      + rewrite Ht2. cbn. rewrite app_length. cbn. lia.
+      + rewrite Hm2. cbn. rewrite spec_max_snoc, <- Hm.
+        destruct (st_max st <? rscore m) eqn:E; [apply Z.ltb_lt in E|apply Z.ltb_ge in E]; lia.
+      + exists st'. rewrite <- app_assoc in *. cbn in *. auto.
+  Qed.
+
+  (* the whole of collect, for the comparison function [cmp] *)
+  Lemma collect_with_spec size skip sa ms :
+    let heap := use_heap size skip in
+    exists st,
+      collect_loop cmp heap (size + skip) sa init_state ms = Some st /\
+      (if heap then heap_final cmp skip (st_store st) else Some (slice_final skip (st_store st))) =
+        Some (firstn size (skipn skip (sort (filter (passes sa) (numbered ms))))) /\
+      st_total st = Z.of_nat (length ms) /\ st_max st = spec_max_score ms.
+  Proof.
+    intros heap.
+    destruct (collect_loop_inv heap (size + skip) sa ms [] init_state) as (st & E & (I & P & _) & Ht & Hm).
+    - unfold cinv. cbn. destruct (size + skip)%nat; repeat split; auto; destruct heap; cbn; auto.
+      + intros j Hj. cbn in Hj. lia.
+      + intros j Hj. cbn in Hj. lia.
+    - reflexivity.
+    - reflexivity.
+    - cbn [app] in *. exists st. repeat split; auto.
+      set (p := filter (passes sa) (numbered ms)) in *.
+      assert (Up : uhits p) by (apply (Ap uhits_filter), uhits_numbered).
+      assert (Us : uhits (st_store st)).
+      { eapply (Ap uhits_perm); [apply Permutation_sym; exact P|].
+        pose proof ((Ap sort_uhits) p Up) as H. rewrite <- (firstn_skipn (size + skip) (sort p)) in H.
+        eapply (Ap uhits_app_l); exact H. }
+      rewrite (final_spec heap skip (st_store st) I Us). f_equal.
+      rewrite ((Ap sort_unique) (st_store st) (firstn (size + skip) (sort p))); auto.
+      + rewrite (Ap sort_sorted_id); auto.
+        * rewrite firstn_skipn_comm. f_equal. f_equal. lia.
+        * eapply (Ap uhits_perm); [exact P|exact Us].
+        * apply (Ap ssorted_firstn), (Ap sort_sorted); auto.
+      + apply (Ap ssorted_firstn), (Ap sort_sorted); auto.
+      + apply Permutation_sym. exact P.
+  Qed.
+
+End Collector.
